@@ -182,9 +182,13 @@ def gatherRows (indices values : List Nat) : List Nat → Except Err (List (List
     | .error e => .error e
     | .ok r => SortIndex.consE r (gatherRows indices values is)
 
+/-- the running totals `dest_indices[count] = total` of `apply_indices_to_index_values`, starting at `total` -/
+def offsets : Nat → List (List Nat) → List Nat
+  | total, [] => [total]
+  | total, r :: rs => total :: offsets (total + r.length) rs
+
 /-- destination `(indices, values)` of `apply_indices_to_index_values`: running totals and the copied bytes -/
-def encodeRows (rows : List (List Nat)) : List Nat × List Nat :=
-  (rows.foldl (fun acc r => acc ++ [acc.getLastD 0 + r.length]) [0], rows.flatten)
+def encodeRows (rows : List (List Nat)) : List Nat × List Nat := (offsets 0 rows, rows.flatten)
 
 /-- a span result used as a row number by `apply_index_to_indexed_field` (numpy would wrap a negative one) -/
 def toRow (x : Int) : Except Err Nat := if 0 ≤ x then .ok x.toNat else .error (.oob "negative row number")
